@@ -185,6 +185,26 @@ impl Property for C14 {
                     Req::GetMany { n: 0 },
                 ]] },
             ]),
+            // a slow reader of a query result (index 5 is read late, through a channel of one entry) and the
+            // last handle released before it reads: the reply reflects the requests before it, complete
+            ("query-reply-survives-the-last-close".into(), vec![
+                Op::Setup { docs: vec![Some(true), None, None] },
+                Op::Clients { seqs: vec![vec![
+                    Req::Open { n: 0, sync: false, sub: false },
+                    Req::Local { n: 0, a: 0, key: b"k1".to_vec(), c: 0, ts: 0 }, Req::Local { n: 0, a: 0, key: b"k2".to_vec(), c: 1, ts: 0 },
+                    Req::Local { n: 0, a: 1, key: b"k3".to_vec(), c: 2, ts: 0 }, Req::Local { n: 0, a: 1, key: b"k4".to_vec(), c: 0, ts: 0 },
+                    Req::GetMany { n: 0 }, Req::Close { n: 0 }, Req::State { n: 0 },
+                ]] },
+            ]),
+            ("query-reply-survives-a-drop".into(), vec![
+                Op::Setup { docs: vec![Some(true), None, None] },
+                Op::Clients { seqs: vec![vec![
+                    Req::Open { n: 0, sync: false, sub: false },
+                    Req::Local { n: 0, a: 0, key: b"k1".to_vec(), c: 0, ts: 0 }, Req::Local { n: 0, a: 0, key: b"k2".to_vec(), c: 1, ts: 0 },
+                    Req::Local { n: 0, a: 1, key: b"k3".to_vec(), c: 2, ts: 0 }, Req::Local { n: 0, a: 1, key: b"k4".to_vec(), c: 0, ts: 0 },
+                    Req::GetMany { n: 0 }, Req::Drop { n: 0 },
+                ]] },
+            ]),
             ("upgrade-while-open-keeps-subscribers".into(), vec![
                 Op::Setup { docs: vec![Some(false), None, None] },
                 Op::Clients { seqs: vec![vec![
@@ -248,9 +268,12 @@ impl Property for C14 {
         let keys = &self.keys;
         // channels of subscribers are kept alive until the end of the case
         let keep: Arc<Mutex<Vec<async_channel::Receiver<iroh_docs::sync::Event>>>> = Default::default();
+        let slow_specs: Arc<Mutex<Vec<Line>>> = Default::default();
         let res: anyhow::Result<()> = rt.block_on(async {
             let mut tasks = vec![];
+            let n_clients = seqs.len();
             for (ci, seq) in seqs.iter().cloned().enumerate() {
+                let slow_specs = slow_specs.clone();
                 let handle = handle.clone();
                 let log = log.clone();
                 let results = results.clone();
@@ -259,6 +282,8 @@ impl Property for C14 {
                 let namespaces: Vec<_> = keys.namespaces.clone();
                 let authors: Vec<_> = keys.authors.clone();
                 tasks.push(tokio::task::spawn(async move {
+                    let mut late = vec![];
+                    let single_client = n_clients == 1;
                     for (i, req) in seq.iter().enumerate() {
                         let nsx = |n: usize| namespaces[n].id();
                         let nsh = |n: usize| hex(namespaces[n].id().as_bytes());
@@ -315,6 +340,37 @@ impl Property for C14 {
                                 log.lock().unwrap().push((ci, i, format!("act 1 getexact {} {} {} {}", nsh(*n), hex(authors[*a].id().as_bytes()), hex(key), *incl as u8)));
                                 match handle.get_exact(nsx(*n), authors[*a].id(), key.clone().into(), *incl).await {
                                     Ok(Some(e)) => format!("some {}", with_fp(stored_tok(&e), &e)), Ok(None) => "none".into(), Err(e) => err_kind(&e) }
+                            }
+                            Req::GetMany { n } if (i + ci) % 2 == 1 => {
+                                // a slow reader: the reply stream has room for one entry and is read only after all
+                                // later requests of this client (which may close the document) — the reply still
+                                // reflects the state at the time of the request, complete
+                                log.lock().unwrap().push((ci, i, format!("act 1 getmany {}", nsh(*n))));
+                                let (tx, rx) = irpc::channel::mpsc::channel(1);
+                                match handle.get_many(nsx(*n), iroh_docs::store::Query::all().include_empty().build(), tx).await {
+                                    Err(e) => err_kind(&e),
+                                    Ok(()) => {
+                                        // with a single client nothing can slip in between: a fast reader asking the
+                                        // same right now is the specification of what the slow one has to see
+                                        let mut fast: Option<String> = None;
+                                        if single_client {
+                                            let (tx2, mut rx2) = irpc::channel::mpsc::channel(64);
+                                            if handle.get_many(nsx(*n), iroh_docs::store::Query::all().include_empty().build(), tx2).await.is_ok() {
+                                                let mut toks = vec![];
+                                                let mut err = None;
+                                                while let Ok(Some(item)) = rx2.recv().await {
+                                                    match item {
+                                                        Ok(e) => toks.push(with_fp(stored_tok(&e), &e)),
+                                                        Err(e) => { err = Some(err_kind(&anyhow::anyhow!("{e}"))); }
+                                                    }
+                                                }
+                                                fast = Some(err.unwrap_or_else(|| entries_line(&toks)));
+                                            }
+                                        }
+                                        late.push((i, rx, fast));
+                                        continue;
+                                    }
+                                }
                             }
                             Req::GetMany { n } => {
                                 log.lock().unwrap().push((ci, i, format!("act 1 getmany {}", nsh(*n))));
@@ -381,6 +437,25 @@ impl Property for C14 {
                         };
                         results.lock().unwrap()[ci][i] = Some(out);
                     }
+                    // the slow reader reads now
+                    for (i, mut rx, fast) in late {
+                        let mut toks = vec![];
+                        let mut err = None;
+                        while let Ok(Some(item)) = rx.recv().await {
+                            match item {
+                                Ok(e) => toks.push(with_fp(stored_tok(&e), &e)),
+                                Err(e) => { err = Some(err_kind(&anyhow::anyhow!("{e}"))); }
+                            }
+                        }
+                        let slow = err.unwrap_or_else(|| entries_line(&toks));
+                        if let Some(fast) = fast {
+                            slow_specs.lock().unwrap().push(Line::oracle(
+                                "sconst slow-reader-sees-what-a-fast-reader-sees",
+                                if fast == slow { "slow-reader-sees-what-a-fast-reader-sees".to_string() } else { format!("slow-reader-got:{}:fast-reader-got:{}", slow.split(' ').nth(1).unwrap_or("?"), fast.split(' ').nth(1).unwrap_or("?")) },
+                            ));
+                        }
+                        results.lock().unwrap()[ci][i] = Some(slow);
+                    }
                 }));
             }
             for t in tasks {
@@ -400,6 +475,7 @@ impl Property for C14 {
                 lines.push(l);
             }
         }
+        lines.extend(slow_specs.lock().unwrap().drain(..));
         for (cmd, out) in &flat {
             let out = out.clone();
             lines.push(Line::model(cmd.clone(), out.clone()));
